@@ -23,7 +23,7 @@ import c04gen
 
 LEVEL = "proof"
 HDEPS = os.path.join(C.BIN, "hdeps")
-EXTRA_GO = gomod.EXTRA_GO + (("./cmd/hdeps", "hdeps", {"tags": "verif"}),)
+EXTRA_GO = gomod.EXTRA_GO + (("./cmd/hdeps", "hdeps", {"tags": "verif", "optional": True}),)
 
 
 def first_name(coqdecl):
@@ -81,6 +81,9 @@ def analyse(files, decls, scratch, build):
                 res["problems"].append(("use-before-definition", {"definition": n, "mentions": u, "position": i, "defined_at": pos[u]}))
         res["canon"][n] = reps[len(order) + i]
     # ---- the recorded data and the model
+    if not build.hooks_ok:
+        shutil.rmtree(root, ignore_errors=True)
+        return res
     h = run_hdeps(root)
     if h.get("err"):
         raise C.Infra("hdeps: " + h["err"][:500])
